@@ -403,6 +403,9 @@ func runC19(c *Ctx) {
 		"picked the transport before upgradeTo swapped and drained it puts its packet on a queue nobody polls any more: no wake-up will ever come for it", 2)
 	sendUnderTransportLock(c, "C19-D8")
 
+	c.Rule("C19-D9", "a forced disconnect flushes first (F65, known finding): serverConn.close waits for the packet queue before it closes the Engine.IO socket", 1)
+	forcedCloseFlushesFirst(c, "C19-D9")
+
 	c.Rule("C19-D5", "who may consume: packetQueue.get/poll are called only from poll/pollAndSend; pollQueue.get only from poll and QueuedPackets (a second consumer would steal packets)", 3)
 	whoMayCall(c, "C19-D5", `\(\*sio\.packetQueue\)\.get`, []string{"(*sio.packetQueue).poll"}, true)
 	whoMayCall(c, "C19-D5", `\(\*sio\.packetQueue\)\.poll`, []string{"(*sio.packetQueue).pollAndSend"}, true)
